@@ -542,7 +542,8 @@ def generated_cases(rng, n_random):
             yield ('%s|%s' % (pk, bk), text, make)
     for i in range(n_random):
         k = rng.randrange(2, 4)
-        picks = [rng.choice(POSITIONS) for _ in range(k)]
+        # (a bare top-level placeholder is only modelled as a template of its own: covered by the product above)
+        picks = [rng.choice([p for p in POSITIONS if p[0] not in ('bare-expr', 'stmt-top')]) for _ in range(k)]
         names = ['P', 'Q', 'R'][:k]
         parts, binds = [], []
         for nm, (pk, text) in zip(names, picks):
